@@ -262,11 +262,29 @@ def run_predict(req):
             return np.zeros((m, 1)), np.array(ids, dtype=int)
         return np.array([[float(t)] for t in ids]).reshape(m, 1), None
 
-    if model == "sup":
-        opf = build(SupervisedOPF)
+    def build_sup(rel=None):
+        o = build(SupervisedOPF)
         X, I = data(list(range(n)))
-        g = Subgraph(X, np.zeros(n, dtype=int), I)
-        g.idx_nodes = [int(x) for x in st["order"]]
+        gg = Subgraph(X, np.zeros(n, dtype=int), I)
+        gg.idx_nodes = [int(x) for x in st["order"]]
+        for i in range(n):
+            gg.nodes[i].cost = st["cost"][i]
+            gg.nodes[i].predicted_label = int(st["plab"][i])
+            if rel is not None:
+                gg.nodes[i].relevant = int(rel[i])
+        gg.trained = True
+        o.subgraph = gg
+        return o, gg
+
+    fresh = None
+    if model == "sup":
+        if st.get("rel") is not None:
+            fresh = []
+            for q in range(nq):
+                o2, _ = build_sup()
+                Xq, Iq = data([n + q])
+                fresh.append(int(o2.predict(Xq, Iq)[0]))
+        opf, g = build_sup(st.get("rel"))
     else:
         opf = build(KNNSupervisedOPF, max_k=k) if model == "knn" else build(UnsupervisedOPF, min_k=1, max_k=k)
         g, _ = _graph(branch, n, T, [0] * n)
@@ -312,6 +330,8 @@ def run_predict(req):
                 o = out_of(bi, pos)
                 if q not in first:
                     first[q] = o
+                    if fresh is not None and o[0] != fresh[q]:
+                        bad.append("same-label-as-on-a-never-used-model[q%d]" % q)
                 elif first[q] != o:
                     bad.append("same-label-at-any-batch-position[q%d: b%d.p%d]" % (q, bi, pos))
     else:
